@@ -382,6 +382,8 @@ def toFloatTy (t : CTy) (v : CVal) : Option Nat :=
 def floatToInt (t : CTy) (s : CTy) (b : Nat) : Option Int :=
   let f : Float := if s = .float then (f32 b).toFloat else f64 b
   if f.isNaN || f.isInf then none
+  -- at or beyond 2^64 no integer type holds the value (`toUInt64` would saturate to 2^64 - 1)
+  else if f.abs ≥ 18446744073709551616.0 then (if t = .bool then some 1 else none)
   else
     let i : Int :=
       if f.abs < 9223372036854775808.0 then (f.toInt64).toInt
